@@ -307,7 +307,8 @@ end
 
 /-! ## anonymous table boxes -/
 
-/-- `is_whitespace(box)` -/
+/-- `is_whitespace(box)`: a text box without any character outside the class of the regular
+expression (`Gen.reSpaceCp`, the graph of the real function: space, tab, LF, CR, FF). -/
 def isWhitespace (b : KBox) : Bool := b.isA .TextBox && allReSpace b.text
 
 /-- `TableColumnGroupBox.span` -/
@@ -570,7 +571,9 @@ def itemChildren (grid : Bool) : List KBox → List KBox
       if grid then b.withInst { b.inst with gridItem := true } else b.withInst { b.inst with flexItem := true }
     if c.isA .TextBox && allPlainSpaces c.text then itemChildren grid cs
     else if c.isA .InlineBlockBox then
-      mark ((anonFrom .BlockBox c c.kids).withStyle c.st) :: itemChildren grid cs
+      -- `anonymous.is_table_wrapper = child.is_table_wrapper`: the wrapper of an inline-table stays one
+      let a := (anonFrom .BlockBox c c.kids).withStyle c.st
+      mark (a.withInst { a.inst with wrapper := c.inst.wrapper }) :: itemChildren grid cs
     else if c.isA .InlineLevelBox then
       let inner := if grid then c.withInst { c.inst with gridItem := false } else c
       mark ((anonFrom .BlockBox c [inner]).withStyle c.st) :: itemChildren grid cs
